@@ -1665,6 +1665,14 @@ func runCase(line string) string {
 		res, _ := hx.Guard(10*deadline, func() string { return runY(f) })
 		return f[1] + " " + res
 	}
+	if len(f) == 6 && f[0] == "P" {
+		res, _ := hx.Guard(4*deadline, func() string { return runP(f) })
+		return f[1] + " " + res
+	}
+	if len(f) == 5 && f[0] == "Q" {
+		res, _ := hx.Guard(4*deadline, func() string { return runQ(f) })
+		return f[1] + " " + res
+	}
 	if len(f) >= 3 && f[0] == "E" && f[2] == "tbsc" {
 		res, _ := hx.Guard(deadline, func() string { return runTBSC(f) })
 		return f[1] + " " + res
@@ -1868,6 +1876,18 @@ func gen(seed uint64, tier string) []string {
 	for i := 0; i < nY; i++ {
 		id++
 		lines = append(lines, genY(r, id, i))
+	}
+	nP, nQ := 40, 36
+	if tier == "thorough" {
+		nP, nQ = 400, 360
+	}
+	for i := 0; i < nP; i++ {
+		id++
+		lines = append(lines, genP(r, id, i))
+	}
+	for i := 0; i < nQ; i++ {
+		id++
+		lines = append(lines, genQ(r, id, i))
 	}
 	nE := 400
 	if tier == "thorough" {
@@ -2707,4 +2727,241 @@ func runY(f []string) string {
 		fs = strings.Join(fails, ",")
 	}
 	return fmt.Sprintf("ok %d %d %s", len(objs), checks, fs)
+}
+
+// ------------------------------------------------------------------------------------------------
+// P cases: signers LOADED from a key file.  The PKCS#8 / ECPrivateKey bytes are built by hand (not by the package's own
+// Marshal functions, which only write minimal-length scalars): the private scalar sits in an OCTET STRING of 30..34
+// octets (leading zero octets stripped or added - 33 octets is what BigInteger-based encoders write when the top bit
+// is set).  The loaded key issues a self-signed certificate, a request and a CRL; every object must verify under the
+// TRUE public point [d]G (the check module computes [d]G itself), and the certificate must carry that point.
+//
+//	P <id> <scalar, 64 hex digits> <octets> <loader pem|pkcs8|sm2> <with public key 0|1>
+//	-> ok <loaded X> <loaded Y> <loaded D> <true X> <true Y> <cert ok><csr ok><crl ok> <cert DER>   | err load:<reason>
+
+var (
+	derOIDecPublicKey = []byte{0x06, 0x07, 0x2a, 0x86, 0x48, 0xce, 0x3d, 0x02, 0x01}       // 1.2.840.10045.2.1
+	derOIDsm2Curve    = []byte{0x06, 0x08, 0x2a, 0x81, 0x1c, 0xcf, 0x55, 0x01, 0x82, 0x2d} // 1.2.156.10197.1.301
+)
+
+func genP(r *hx.Rng, id, i int) string {
+	d := r.Bytes(32)
+	octets := []int{32, 33, 34, 33, 32, 31, 30, 33}[i%8]
+	switch octets {
+	case 31:
+		d[0] = 0
+		d[1] |= 0x80
+	case 30:
+		d[0], d[1] = 0, 0
+		d[2] |= 1
+	default:
+		switch r.Intn(3) {
+		case 0:
+			d[0] |= 0x80 // top bit set: the case in which a signed-integer encoder adds a zero octet
+			if d[0] == 0xff {
+				d[0] = 0xfe // stay below the group order (which starts with fffffffe)
+			}
+		case 1:
+			d[0] &= 0x7f
+			d[0] |= 1
+		default:
+			if d[0] == 0xff {
+				d[0] = 0x3c
+			}
+		}
+	}
+	loader := []string{"pkcs8", "pem", "sm2"}[(i/8)%3]
+	return fmt.Sprintf("P %d %s %d %s %d", id, hx.Hex(d), octets, loader, r.Intn(2))
+}
+
+func runP(f []string) string {
+	db := hx.UnHex(f[2])
+	octets, _ := strconv.Atoi(f[3])
+	if len(db) != 32 || octets < 1 || octets > 40 {
+		return "BADCASE"
+	}
+	curve := sm2.P256Sm2()
+	tx, ty := curve.ScalarBaseMult(db)
+	var sc []byte
+	if octets >= 32 {
+		sc = append(make([]byte, octets-32), db...)
+	} else {
+		for _, b := range db[:32-octets] {
+			if b != 0 {
+				return "BADCASE"
+			}
+		}
+		sc = db[32-octets:]
+	}
+	body := append(derTLV(2, []byte{1}), derTLV(4, sc)...)
+	body = append(body, derTLV(0xa0, derOIDsm2Curve)...)
+	if f[5] == "1" {
+		body = append(body, derTLV(0xa1, derTLV(3, append([]byte{0}, elliptic.Marshal(curve, tx, ty)...)))...)
+	}
+	ecpriv := derTLV(0x30, body)
+	p8 := append(derTLV(2, []byte{0}), derTLV(0x30, append(append([]byte{}, derOIDecPublicKey...), derOIDsm2Curve...))...)
+	p8 = derTLV(0x30, append(p8, derTLV(4, ecpriv)...))
+	var key *sm2.PrivateKey
+	var err error
+	switch f[4] {
+	case "sm2":
+		key, err = x509.ParseSm2PrivateKey(ecpriv)
+	case "pkcs8":
+		key, err = x509.ParsePKCS8UnecryptedPrivateKey(p8)
+	case "pem":
+		key, err = x509.ReadPrivateKeyFromPem(pem.EncodeToMemory(&pem.Block{Type: "PRIVATE KEY", Bytes: p8}), nil)
+	default:
+		return "BADCASE"
+	}
+	if err != nil || key == nil || key.D == nil || key.X == nil || key.Y == nil {
+		return "err load:" + slug(fmt.Sprint(err))
+	}
+	// the holder of the true public key: only PublicKey / PublicKeyAlgorithm are read by the checks
+	truth := &x509.Certificate{PublicKeyAlgorithm: x509.ECDSA, PublicKey: &ecdsa.PublicKey{Curve: curve, X: tx, Y: ty}}
+	name := pkix.Name{CommonName: "loaded signer " + f[1], Organization: []string{"verif"}}
+	t := &x509.Certificate{SerialNumber: big.NewInt(77), Subject: name, NotBefore: time.Unix(1700000000, 0), NotAfter: time.Unix(1900000000, 0),
+		BasicConstraintsValid: true, IsCA: true, KeyUsage: x509.KeyUsageCertSign | x509.KeyUsageCRLSign, SignatureAlgorithm: x509.SM2WithSM3}
+	der, err := x509.CreateCertificate(t, t, &key.PublicKey, key)
+	if err != nil {
+		return "err create-cert:" + slug(err.Error())
+	}
+	ca, err := x509.ParseCertificate(der)
+	if err != nil {
+		return "err parse-cert:" + slug(err.Error())
+	}
+	okCert := truth.CheckSignature(ca.SignatureAlgorithm, ca.RawTBSCertificate, ca.Signature) == nil
+	csrDER, err := x509.CreateCertificateRequest(rand.Reader, &x509.CertificateRequest{Subject: name, SignatureAlgorithm: x509.SM2WithSM3}, key)
+	if err != nil {
+		return "err create-csr:" + slug(err.Error())
+	}
+	csr, err := x509.ParseCertificateRequest(csrDER)
+	if err != nil {
+		return "err parse-csr:" + slug(err.Error())
+	}
+	q := *csr
+	q.PublicKey = truth.PublicKey
+	okCSR := q.CheckSignature() == nil
+	crlDER, err := ca.CreateCRL(rand.Reader, key, nil, time.Unix(1700000000, 0), time.Unix(1800000000, 0))
+	if err != nil {
+		return "err create-crl:" + slug(err.Error())
+	}
+	crl, err := x509.ParseDERCRL(crlDER)
+	if err != nil {
+		return "err parse-crl:" + slug(err.Error())
+	}
+	okCRL := truth.CheckCRLSignature(crl) == nil
+	return fmt.Sprintf("ok %064x %064x %064x %064x %064x %s%s%s %s", key.X, key.Y, key.D, tx, ty, b2s(okCert), b2s(okCSR), b2s(okCRL), hx.Hex(der))
+}
+
+// ------------------------------------------------------------------------------------------------
+// Q cases: the issuer name of a certificate issued under a PARSED parent.  The CA certificate is created with a given
+// subject encoding (RawSubject of its template), goes through ParseCertificate, and issues a certificate: the issuer field
+// of the child must be the subject of the parent BYTE FOR BYTE (names are compared as bytes when chains are built), and
+// Verify must build child -> parent.  The subjects include ones pkix.Name cannot regenerate: attributes given through
+// ExtraNames, unknown attribute types, another attribute order, other string types.
+//
+//	Q <id> <variant> <subject DER, hex> <parent p (parsed) | m (in memory, RawSubject set)>
+//	-> ok <child DER> <CA DER> <Verify: 1 | 0:reason> <CheckSignatureFrom 0|1>
+
+func derStr(tag byte, s string) []byte { return derTLV(tag, []byte(s)) }
+
+func derAttr(oid asn1.ObjectIdentifier, val []byte) []byte {
+	o, err := asn1.Marshal(oid)
+	if err != nil {
+		panic(err)
+	}
+	return derTLV(0x31, derTLV(0x30, append(o, val...)))
+}
+
+func genQ(r *hx.Rng, id, i int) string {
+	variants := []string{"extranames", "extracountry", "unknowntype", "order", "utf8", "ia5", "multi", "plain", "teletex"}
+	v := variants[i%len(variants)]
+	w := func() string { return genLabel(r) }
+	var raw []byte
+	fromName := func(n pkix.Name) []byte {
+		b, err := asn1.Marshal(n.ToRDNSequence())
+		if err != nil {
+			panic(err)
+		}
+		return b
+	}
+	oidCN, oidO, oidC := asn1.ObjectIdentifier{2, 5, 4, 3}, asn1.ObjectIdentifier{2, 5, 4, 10}, asn1.ObjectIdentifier{2, 5, 4, 6}
+	switch v {
+	case "extranames":
+		raw = fromName(pkix.Name{Organization: []string{w()}, CommonName: w(), ExtraNames: []pkix.AttributeTypeAndValue{
+			{Type: asn1.ObjectIdentifier{2, 5, 4, 42}, Value: w()},
+			{Type: asn1.ObjectIdentifier{0, 9, 2342, 19200300, 100, 1, 25}, Value: w()}}})
+	case "extracountry":
+		raw = fromName(pkix.Name{Country: []string{"CN"}, CommonName: w(), ExtraNames: []pkix.AttributeTypeAndValue{{Type: oidC, Value: "DE"}}})
+	case "unknowntype":
+		raw = fromName(pkix.Name{CommonName: w(), ExtraNames: []pkix.AttributeTypeAndValue{{Type: asn1.ObjectIdentifier{1, 2, 3, 4, r.Intn(1000)}, Value: w()}}})
+	case "order": // CN first, then O, then C
+		raw = derTLV(0x30, append(append(derAttr(oidCN, derStr(0x13, w())), derAttr(oidO, derStr(0x13, w()))...), derAttr(oidC, derStr(0x13, "CN"))...))
+	case "utf8": // an ASCII value as UTF8String (the package would write PrintableString)
+		raw = derTLV(0x30, append(derAttr(oidO, derStr(0x0c, w())), derAttr(oidCN, derStr(0x0c, w()))...))
+	case "ia5":
+		raw = derTLV(0x30, append(derAttr(oidO, derStr(0x13, w())), derAttr(oidCN, derStr(0x16, w()))...))
+	case "teletex":
+		raw = derTLV(0x30, append(derAttr(oidO, derStr(0x14, w())), derAttr(oidCN, derStr(0x13, w()))...))
+	case "multi":
+		raw = fromName(pkix.Name{Organization: []string{w(), w()}, OrganizationalUnit: []string{w()}, CommonName: w()})
+	default:
+		raw = fromName(pkix.Name{Country: []string{"CN"}, Organization: []string{w()}, CommonName: w()})
+	}
+	return fmt.Sprintf("Q %d %s %s %s", id, v, hx.Hex(raw), []string{"p", "p", "m"}[(i/len(variants))%3])
+}
+
+func genLabel(r *hx.Rng) string {
+	n := 3 + r.Intn(10)
+	b := make([]byte, n)
+	for i := range b {
+		b[i] = "abcdefghijklmnopqrstuvwxyz0123456789 "[r.Intn(37)]
+	}
+	b[0], b[n-1] = 'q', 'z'
+	return string(b)
+}
+
+func runQ(f []string) string {
+	raw := hx.UnHex(f[3])
+	if len(raw) == 0 {
+		return "BADCASE"
+	}
+	caKey := W.sm2k[0]
+	ski := []byte{9, 9, 1}
+	ct := &x509.Certificate{SerialNumber: big.NewInt(3), RawSubject: raw, NotBefore: time.Unix(1700000000, 0), NotAfter: time.Unix(1900000000, 0),
+		BasicConstraintsValid: true, IsCA: true, KeyUsage: x509.KeyUsageCertSign, SubjectKeyId: ski, SignatureAlgorithm: x509.SM2WithSM3}
+	// the CA certificate is issued by a stub that has only the raw name (this call is not the one under observation)
+	caDER, err := x509.CreateCertificate(ct, &x509.Certificate{RawSubject: raw, SubjectKeyId: ski}, &caKey.PublicKey, caKey)
+	if err != nil {
+		return "err create-ca:" + slug(err.Error())
+	}
+	ca, err := x509.ParseCertificate(caDER)
+	if err != nil {
+		return "err parse-ca:" + slug(err.Error())
+	}
+	parent := ca
+	if f[4] == "m" {
+		parent = &x509.Certificate{RawSubject: raw, SubjectKeyId: ski}
+	}
+	lt := &x509.Certificate{SerialNumber: big.NewInt(4), Subject: pkix.Name{CommonName: "child " + f[1]}, NotBefore: time.Unix(1700000000, 0),
+		NotAfter: time.Unix(1900000000, 0), DNSNames: []string{"q.example.com"}, ExtKeyUsage: []x509.ExtKeyUsage{x509.ExtKeyUsageServerAuth},
+		SignatureAlgorithm: x509.SM2WithSM3}
+	der, err := x509.CreateCertificate(lt, parent, &W.sm2k[2].PublicKey, caKey)
+	if err != nil {
+		return "err create-child:" + slug(err.Error())
+	}
+	child, err := x509.ParseCertificate(der)
+	if err != nil {
+		return "err parse-child:" + slug(err.Error())
+	}
+	roots := x509.NewCertPool()
+	roots.AddCert(ca)
+	ver := "1"
+	chains, err := child.Verify(x509.VerifyOptions{Roots: roots, CurrentTime: time.Unix(1800000000, 0), DNSName: "q.example.com"})
+	if err != nil {
+		ver = "0:" + slug(err.Error())
+	} else if len(chains) != 1 || len(chains[0]) != 2 {
+		ver = "0:chains"
+	}
+	return fmt.Sprintf("ok %s %s %s %s", hx.Hex(der), hx.Hex(caDER), ver, b2s(child.CheckSignatureFrom(ca) == nil))
 }
